@@ -117,6 +117,7 @@ def main(tier, seed):
     if rw.returncode != 0:
         raise Inconclusive(f"warming build failed: {rw.stderr[-2000:]}")
     wev = read_trace(wtrace)
+    short = {"example.com/proto/leaf": "leaf", "example.com/proto/mid": "mid", "example.com/proto": "main"}
     keys = {}
     for e in wev:
         if e["ev"] == "pkgcache-put":
@@ -125,11 +126,31 @@ def main(tier, seed):
             keys[("asm", e["pkg"])] = e["key"]
         elif e["ev"] == "debugdir-put":
             keys[("dbg-" + e["kind"], e["pkg"])] = e["key"]
-    short = {"example.com/proto/leaf": "leaf", "example.com/proto/mid": "mid", "example.com/proto": "main"}
     mod_keys = {(k, short[p]): v for (k, p), v in keys.items() if p in short}
     std_keys = {(k, p): v for (k, p), v in keys.items() if p in ("fmt", "encoding/json", "reflect", "os")}
     if len([k for k in mod_keys if k[0] == "facts"]) != 3:
         raise Inconclusive(f"expected reflection-fact entries for leaf, mid, main; got {sorted(mod_keys)}")
+    # warm caches and reference with GARBLE_EXPERIMENTAL_CONTROLFLOW=1
+    CF = {"GARBLE_EXPERIMENTAL_CONTROLFLOW": "1"}
+    warmc = work / "warm-cf"
+    srcc = write_proto(warmc / "src")
+    sbc = Sandbox(warmc / "sb", template=True)
+    copytree(tool, sbc.gcache / "tool")
+    ctrace = warmc / "trace.ndjson"
+    rc_ = sbc.garble(["build", "-o", str(warmc / "prog"), "."], cwd=srcc, env=CF, trace=ctrace, timeout=1500)
+    if rc_.returncode != 0:
+        raise Inconclusive(f"warming build (control flow) failed: {rc_.stderr[-2000:]}")
+    cf_keys = {("facts", short[e["pkg"]]): e["key"] for e in read_trace(ctrace) if e["ev"] == "pkgcache-put" and e["pkg"] in short}
+    refc = work / "ref-cf"
+    rsrcc = write_proto(refc / "src")
+    edit_source(rsrcc, "main", 1)
+    rsbc = Sandbox(refc / "sb", template=True)
+    copytree(tool, rsbc.gcache / "tool")
+    rrc = rsbc.garble(["build", "-o", str(refc / "prog"), "."], cwd=rsrcc, env=CF, timeout=1500)
+    if rrc.returncode != 0:
+        raise Inconclusive(f"reference build (control flow) failed: {rrc.stderr[-2000:]}")
+    refc_sha, refc_run = sha256_file(refc / "prog"), run_binary(refc / "prog")
+    rmtree(refc / "sb")
     # reference: edited source, empty caches
     ref_root = work / "ref"
     rsrc = write_proto(ref_root / "src")
@@ -152,6 +173,17 @@ def main(tier, seed):
             fault_sets.append([("entry", what, pkg, rng.choice(KINDS))])
     for store in ("gcache-build", "gcache-all", "gocache-half-deleted", "gocache-some-truncated"):
         fault_sets.append([("store", store)])
+    # an entry is only read again when its package is recompiled under the SAME key: rerun with -a
+    # (every package recompiled, all keys unchanged) after damaging the asm name map / the facts of a dependency
+    for (what, pkg), key in sorted(mod_keys.items()):
+        if what == "asm" or (what == "facts" and pkg == "leaf"):
+            for kind in (KINDS if tier == "thorough" or what == "asm" else [rng.choice(KINDS)]):
+                fault_sets.append([("entry", what, pkg, kind), ("rebuild-all",)])
+    # the same with control-flow obfuscation on (its own warm caches, see below): recomputation of a
+    # dependency's entry from a dependant's compile goes through the SSA form there
+    for fs in ([("entry", "facts", "mid", "noindex")], [("entry", "facts", "leaf", "nodata")], [("entry", "facts", "mid", "truncdata"), ("entry", "facts", "leaf", "noindex")],
+               [("store", "gcache-build")]):
+        fault_sets.append([("ctrlflow",)] + fs)
     for st in ("none", "partial", "old", "cur"):
         for bn in ("none", "partial", "old", "cur"):
             if (st, bn) != ("cur", "cur") and (tier == "thorough" or (st, bn) in (("cur", "none"), ("cur", "partial"), ("none", "cur"), ("partial", "cur"), ("old", "old"), ("cur", "old"), ("partial", "partial"))):
@@ -177,24 +209,28 @@ def main(tier, seed):
     chk.extra["fault_sets"] = len(fault_sets)
     lock = threading.Lock()
     tcfg = (SPEC / "cfg" / "BuildCacheTrace.cfg").read_text().replace(
-        "CONSTANTS\n", 'CONSTANTS\n  KeyFields = {"tiny", "lit", "seed", "gogarble", "ctrl"}\n  XNameKeyed = FALSE\n')
+        "CONSTANTS\n", 'CONSTANTS\n  KeyFields = {"tiny", "lit", "seed", "gogarble", "ctrl"}\n  XNameKeyed = TRUE\n')
 
     def experiment(idx_fs):
         idx, fs = idx_fs
         root = work / f"f{idx}"
+        ctrl = ("ctrlflow",) in fs
+        rebuild_all = ("rebuild-all",) in fs
+        fs = [f for f in fs if f not in (("ctrlflow",), ("rebuild-all",))]
+        wsb, wkeys, want_sha, want_run, benv = (sbc, cf_keys, refc_sha, refc_run, CF) if ctrl else (sbw, mod_keys, ref_sha, ref_run, {})
         sb = Sandbox(root / "sb", gocache=None)
         rmtree(sb.gocache)
-        copytree(sbw.gocache, sb.gocache)
+        copytree(wsb.gocache, sb.gocache)
         rmtree(sb.gcache)
-        copytree(sbw.gcache, sb.gcache)
+        copytree(wsb.gcache, sb.gcache)
         esrc = write_proto(root / "src")
         local_rng = __import__("random").Random(seed * 1000 + idx)
-        steps = [{"ev": "build", "cfg": BASE, "compiled": ["leaf", "main", "mid"], "recomputed": ["leaf", "main", "mid"]}]
+        steps = [{"ev": "build", "cfg": BASE, "compiled": ["abi", "leaf", "main", "mid", "rt"], "recomputed": ["leaf", "main", "mid"]}]
         modelled = True
         for f in fs:
             if f[0] == "entry":
                 _, what, pkg, kind = f
-                key = mod_keys.get((what, pkg)) or std_keys.get((what, pkg))
+                key = wkeys.get((what, pkg)) or std_keys.get((what, pkg))
                 apply_damage(sb.gcache, key, kind)
                 if what == "facts" and pkg in ("leaf", "mid", "main"):
                     steps.append({"ev": "damage", "p": pkg, "kind": kind})
@@ -217,24 +253,26 @@ def main(tier, seed):
             elif f[0] == "linker":
                 set_linker_state(sb.gcache, tool, f[1], f[2])
         edit_source(esrc, "main", 1)
-        steps.append({"ev": "edit", "p": "main"})
+        steps.append({"ev": "edit", "p": "main", "kind": "api"})
         trace = root / "trace.ndjson"
-        r2 = sb.garble(["build", "-o", str(root / "prog"), "."], cwd=esrc, trace=trace, timeout=1500)
+        if rebuild_all or ctrl:
+            modelled = False      # BuildCacheTrace's constants describe the default configuration without -a
+        r2 = sb.garble(["build"] + (["-a"] if rebuild_all else []) + ["-o", str(root / "prog"), "."], cwd=esrc, env=benv, trace=trace, timeout=1500)
         evs = read_trace(trace)
-        nm = lambda p: p.replace("example.com/proto/", "").replace("example.com/proto", "main")
-        compiled = sorted({nm(e["pkg"]) for e in evs if e["ev"] == "compile-start" and e["pkg"].startswith("example.com/proto")})
-        recomputed = sorted({nm(e["pkg"]) for e in evs if e["ev"] == "pkgcache-put" and e["pkg"].startswith("example.com/proto")})
+        nm = {"internal/abi": "abi", "runtime": "rt", "example.com/proto/leaf": "leaf", "example.com/proto/mid": "mid", "example.com/proto": "main"}
+        compiled = sorted({nm[e["pkg"]] for e in evs if e["ev"] == "compile-start" and e["pkg"] in nm})
+        recomputed = sorted({nm[e["pkg"]] for e in evs if e["ev"] == "pkgcache-put" and e["pkg"] in nm and nm[e["pkg"]] in ("leaf", "mid", "main")})
         steps.append({"ev": "build", "cfg": BASE, "compiled": compiled, "recomputed": recomputed})
-        witness = {"faults": [list(f) for f in fs], "kinds": sorted({f[-1] for f in fs if f[0] == "entry"}),
+        witness = {"faults": [list(f) for f in fs], "kinds": sorted({f[-1] for f in fs if f[0] == "entry"}), "ctrlflow": ctrl, "rebuild_all": rebuild_all,
                    "linker": next(([f[1], f[2]] for f in fs if f[0] == "linker"), None)}
         files = {"trace.ndjson": trace, "stderr.txt": r2.stderr[-4000:], "faults.json": json.dumps(witness)}
         with lock:
-            chk.case([list(f) for f in fs], sample=witness if idx % 12 == 0 else None)
+            chk.case([[list(f) for f in fs], ctrl, rebuild_all], sample=witness if idx % 12 == 0 else None)
             if r2.returncode != 0:
                 chk.violation(dict(witness, kind="rebuild-failed"), files, what=f"rebuild after faults {fs} failed: {r2.stderr[-300:]}")
             else:
-                if sha256_file(root / "prog") != ref_sha:
-                    same_out = run_binary(root / "prog")[1] == ref_run[1]
+                if sha256_file(root / "prog") != want_sha:
+                    same_out = run_binary(root / "prog")[1] == want_run[1]
                     chk.violation(dict(witness, kind="binary-differs", output_same=same_out), files, what=f"rebuild after faults {fs} differs from the build from empty caches")
                 if (sb.gcache / "tool" / "old-linker-used").exists():
                     chk.violation(dict(witness, kind="foreign-linker-used"), files, what="a linker of another version was executed")
